@@ -207,6 +207,25 @@ func (dc *dataChunk) beginGCWriting(srcChunk int) (err error) {
 	return
 }
 
+// dropStaleTail is called when every record of a file that is being rewritten in place has been read.
+// What lies beyond the write head are old copies; they must go before records of later files are
+// appended here and those files are removed, or a crash would bring superseded records back to life.
+func (dc *dataChunk) dropStaleTail() (err error) {
+	if !dc.rewriting || dc.gcWriter == nil || dc.writingHead >= dc.size {
+		return
+	}
+	if err = dc.gcWriter.wbuf.Flush(); err != nil {
+		return
+	}
+	logger.Infof("drop stale tail of %s: %d -> %d", dc.path, dc.size, dc.writingHead)
+	// not Truncate(): it removes an empty file, and the writer keeps appending to this one
+	if err = os.Truncate(dc.path, int64(dc.writingHead)); err != nil {
+		return
+	}
+	dc.size = dc.writingHead
+	return
+}
+
 func (dc *dataChunk) endGCWriting() (err error) {
 	logger.Infof("endGCWriting chunk %d rewrite %v size %d wsize%d ", dc.chunkid, dc.rewriting, dc.size, dc.writingHead)
 	if dc.gcWriter != nil {
@@ -214,7 +233,7 @@ func (dc *dataChunk) endGCWriting() (err error) {
 		dc.gcWriter.Close()
 		dc.gcWriter = nil
 	}
-	if dc.rewriting && dc.writingHead < dc.size {
+	if dc.rewriting && (dc.writingHead < dc.size || dc.writingHead == 0) {
 		dc.Truncate(dc.writingHead)
 		dc.size = dc.writingHead
 	}
